@@ -27,6 +27,7 @@ var (
 	errNoResourcepart     = errors.New("the resourcepart must be larger than 0 bytes")
 	errTrailingDot        = errors.New("the domainpart must not end in an empty label")
 	errUnstableDomain     = errors.New("the domainpart does not have a stable normalized form")
+	errUnstableLocalpart  = errors.New("the localpart does not have a stable normalized form")
 )
 
 // JID represents an XMPP address (Jabber ID) comprising a localpart,
@@ -88,6 +89,10 @@ func New(localpart, domainpart, resourcepart string) (JID, error) {
 			return JID{}, err
 		}
 		lenlocal = len(data)
+		err = stableLocalpart(localpart, data)
+		if err != nil {
+			return JID{}, err
+		}
 	}
 
 	data = append(data, []byte(domainpart)...)
@@ -126,6 +131,10 @@ func (j JID) WithLocal(localpart string) (JID, error) {
 			return j, errInvalidUTF8
 		}
 		data, err = precis.UsernameCaseMapped.Append(data, []byte(localpart))
+		if err != nil {
+			return j, err
+		}
+		err = stableLocalpart(localpart, data)
 		if err != nil {
 			return j, err
 		}
@@ -383,6 +392,29 @@ func localChecks(localpart []byte) error {
 		return errForbiddenLocalpart
 	}
 
+	return nil
+}
+
+// stableLocalpart reports an error if enforced, the result of applying the
+// UsernameCaseMapped profile to localpart, is not a fixed point of the profile.
+// The canonical form has to be one, otherwise the string form of the JID parses
+// to a different JID.
+// This is not guaranteed by the profile: it composes characters after mapping
+// case, and the composition may produce a character that is case mapped when it
+// is processed again (eg. "\U00010041\u0301" is mapped to "\u00c1", which is
+// then mapped to "\u00e1").
+// A localpart that was not changed by the profile is stable and costs nothing.
+func stableLocalpart(localpart string, enforced []byte) error {
+	if string(enforced) == localpart {
+		return nil
+	}
+	again, err := precis.UsernameCaseMapped.Append(nil, enforced)
+	if err != nil {
+		return err
+	}
+	if !bytes.Equal(again, enforced) {
+		return errUnstableLocalpart
+	}
 	return nil
 }
 
